@@ -6,6 +6,7 @@ package vnet
 import (
 	"io"
 	"net"
+	"os"
 	"time"
 
 	"github.com/Tnze/go-mc/verifshim/sched"
@@ -22,6 +23,8 @@ type end struct {
 	selfShut  bool
 	ShortRead bool // explore short reads on this end
 	Written   *int64
+	// deadlines armed on this end, and the logical time: every deadline at or before passed has passed
+	readDL, writeDL, passed time.Time
 }
 
 // Pipe returns the two ends of a duplex connection.
@@ -41,6 +44,9 @@ func (c *Conn) Read(p []byte) (int, error) {
 	sched.Point("net.Read(" + e.name + ")")
 	if len(p) == 0 {
 		return 0, nil
+	}
+	if !e.readDL.IsZero() && !e.readDL.After(e.passed) {
+		return 0, os.ErrDeadlineExceeded
 	}
 	sched.Block("data on pipe end "+e.name, func() bool { return len(e.in.buf) > 0 || e.in.closed || e.selfShut })
 	if e.selfShut {
@@ -76,6 +82,9 @@ func (c *Conn) Write(p []byte) (int, error) {
 	if e.out.closed {
 		return 0, io.ErrClosedPipe
 	}
+	if !e.writeDL.IsZero() && !e.writeDL.After(e.passed) {
+		return 0, os.ErrDeadlineExceeded
+	}
 	e.out.buf = append(e.out.buf, p...)
 	return len(p), nil
 }
@@ -102,6 +111,22 @@ func (a addr) String() string  { return string(a) }
 
 func (c *Conn) LocalAddr() net.Addr                { return addr("vnet-" + c.e.name) }
 func (c *Conn) RemoteAddr() net.Addr               { return addr("vnet-peer-of-" + c.e.name) }
-func (c *Conn) SetDeadline(t time.Time) error      { return nil }
-func (c *Conn) SetReadDeadline(t time.Time) error  { return nil }
-func (c *Conn) SetWriteDeadline(t time.Time) error { return nil }
+func (c *Conn) SetDeadline(t time.Time) error      { c.e.readDL, c.e.writeDL = t, t; return nil }
+func (c *Conn) SetReadDeadline(t time.Time) error  { c.e.readDL = t; return nil }
+func (c *Conn) SetWriteDeadline(t time.Time) error { c.e.writeDL = t; return nil }
+
+// LetDeadlinesPass advances this end's logical time past every deadline that is armed on it right now (a deadline
+// armed later for a later time is not affected). Time never passes on its own on a vnet connection: the harness
+// decides when "the context's deadline has gone by".
+func (c *Conn) LetDeadlinesPass() {
+	for _, d := range []time.Time{c.e.readDL, c.e.writeDL} {
+		if d.After(c.e.passed) {
+			c.e.passed = d
+		}
+	}
+}
+
+// ArmedDeadlines reports which deadlines are armed on this end.
+func (c *Conn) ArmedDeadlines() (read, write bool) {
+	return !c.e.readDL.IsZero(), !c.e.writeDL.IsZero()
+}
